@@ -5,6 +5,18 @@ import z3
 
 _HZ = None          # harness instance, inherited by forked workers
 
+def plain(x, depth=0):
+    """picklable / JSON-able copy (z3 terms become strings)"""
+    if depth > 14:
+        return '...'
+    if isinstance(x, dict):
+        return {(k if isinstance(k, (str, int)) else str(k)): plain(v, depth + 1) for k, v in x.items()}
+    if isinstance(x, (list, tuple, set, frozenset)):
+        return [plain(v, depth + 1) for v in x]
+    if isinstance(x, (str, int, float, bool)) or x is None:
+        return x
+    return str(x)
+
 def run_one(hz, prefix):
     prog = hz.prog
     ctx = Ctx(prog, prefix, timeout_ms=hz.z3_timeout_ms, max_steps=hz.max_steps, max_depth=hz.max_depth)
@@ -40,8 +52,10 @@ def run_one(hz, prefix):
                 fv(ctx, v)
             except Exception as e2:
                 v['finish_error'] = repr(e2)
+    ctx.violations = [plain(v) for v in ctx.violations]
+    res['sample'] = plain(res.get('sample'))
     if getattr(ctx, 'tv', None) is not None:
-        res['tv'] = ctx.tv
+        res['tv'] = plain(ctx.tv)
     res.update(trace=list(ctx.trace), pending=ctx.pending, steps=ctx.steps, queries=ctx.queries, solver_s=ctx.solver_s,
                covers=sorted(ctx.covers), fn_stmts=ctx.fn_stmts, natives=sorted(ctx.natives_hit),
                obligations=ctx.obligations, smt_obligations=ctx.smt_obligations, violations=ctx.violations,
